@@ -599,3 +599,5 @@ def check(src, rep, tier):
     rep.guard('C13.R3', r3_mapping, src)
     rep.guard('C13.R6', r6_delimiter_searches, src)
     rep.guard('C13.R7', r7_documented_encoding, src)
+    from . import common as _common_flags
+    rep.guard('C13.R2', _common_flags.check_re_positional_flags, src, 'C13.R2', 'deb822', 'a relation field with more pieces than that comes back truncated (the rest as one raw name)')
